@@ -154,9 +154,12 @@ def check_one(spec, fn, env, abs_args, harness):
       if not any(h in due for h in hit):
         return Failure(spec, abs_args, f'raises-only-if[{hit[0]}]', f'raised {type(e).__name__}: {e}')
       return None
-    if any(x in names for x in spec.raises_any):
+    if any(x in names for x in spec.raises_any) or any(x in names for x in spec.raises_when):
       return None
     return Failure(spec, abs_args, f'safety:unexpected-raise[{type(e).__name__}]', f'raised {type(e).__name__}: {e}'[:300])
+  due_w = [exn for exn, cond in spec.raises_when.items() if eval_clause(cond, env, abs_args)]
+  if due_w:
+    return Failure(spec, abs_args, f'raises-when[{due_w[0]}]', f'returned {outcome[1]!r} instead of raising'[:300])
   if due:
     return Failure(spec, abs_args, f'raises-if[{due[0]}]', f'returned {outcome[1]!r} instead of raising'[:300])
   post = dict(abs_args)
